@@ -180,7 +180,7 @@ func genC12(o *hx.Out, tier string) {
 	// ---- serial endpoints (fake devices through the verif hook): the transport is closed only by
 	// the channel, and a Write blocked in it returns only when it is closed ----
 	for rep := 0; rep < reps*2; rep++ {
-		for _, point := range []string{"writer-blocked-in-transport", "idle", "traffic-in-flight"} {
+		for _, point := range []string{"writer-blocked-in-transport", "idle", "traffic-in-flight", "read-error-while-writer-blocked"} {
 			runtime.GOMAXPROCS([]int{1, 2, 16}[rep%3])
 			var mu sync.Mutex
 			var opened []*scn.Pipe
@@ -227,6 +227,20 @@ func genC12(o *hx.Out, tier string) {
 				for atomic.LoadInt32(&dev.BlockedIn) == 0 && time.Now().Before(dl) {
 					time.Sleep(time.Millisecond)
 				}
+			case "read-error-while-writer-blocked":
+				// the reader ends first while a Write is stuck in the device: the channel must close the
+				// device (which releases the writer) and end; Close() afterwards must still return
+				dev.BlockWrites()
+				node.WriteMessageAll(serialMsg(7)) //nolint:errcheck
+				dl := time.Now().Add(2 * time.Second)
+				for atomic.LoadInt32(&dev.BlockedIn) == 0 && time.Now().Before(dl) {
+					time.Sleep(time.Millisecond)
+				}
+				dev.FeedErr(errors.New("device unplugged"))
+				dl = time.Now().Add(3 * time.Second)
+				for atomic.LoadInt32(&dev.Closes) == 0 && time.Now().Before(dl) {
+					time.Sleep(time.Millisecond)
+				}
 			case "traffic-in-flight":
 				fb := frameBytes(drw, validFrame(r, drw, hx.RandMessage(r, d.Messages[0], 2), true, nil))
 				for i := 0; i < 10; i++ {
@@ -243,6 +257,73 @@ func genC12(o *hx.Out, tier string) {
 			mu.Unlock()
 			o.Add("serial "+point, verdict, "expect", "ok", fmt.Sprintf("serial %s rep=%d", point, rep))
 		}
+	}
+	// ---- a device obtained while the node is closing must be released ----
+	for rep := 0; rep < reps*2; rep++ {
+		runtime.GOMAXPROCS([]int{1, 2, 16}[rep%3])
+		var mu sync.Mutex
+		calls := 0
+		entered := make(chan struct{})
+		release := make(chan struct{})
+		var late *scn.Pipe
+		gomavlib.VerifSetSerialOpenFunc(func(device string, baud int) (io.ReadWriteCloser, error) {
+			mu.Lock()
+			calls++
+			c := calls
+			mu.Unlock()
+			if c == 2 {
+				close(entered)
+				<-release
+				p := scn.NewPipe("late")
+				mu.Lock()
+				late = p
+				mu.Unlock()
+				return p, nil
+			}
+			if c > 2 {
+				return nil, errors.New("no more devices")
+			}
+			return scn.NewPipe(device), nil
+		})
+		node, err := gomavlib.NewNode(gomavlib.NodeConf{Endpoints: []gomavlib.EndpointConf{gomavlib.EndpointSerial{Device: "/dev/fake", Baud: 57600}},
+			Dialect: d, OutVersion: gomavlib.V2, OutSystemID: 10, HeartbeatDisable: true})
+		if err != nil {
+			o.Add("serial open-during-close", "INIT-FAILED "+err.Error(), "expect", "ok", fmt.Sprintf("serial open-during-close rep=%d", rep))
+			continue
+		}
+		col := scn.NewCollector(node, 0, rep%2 == 1)
+		verdict := "ok"
+		select {
+		case <-entered:
+		case <-time.After(3 * time.Second):
+			verdict = "DEVICE-NOT-OPENED"
+		}
+		closed := make(chan bool, 1)
+		go func() { closed <- scn.CloseWithin(node, 8*time.Second) }()
+		time.Sleep(time.Duration(5+rep%4*10) * time.Millisecond)
+		close(release)
+		if !<-closed {
+			verdict = "CLOSE-DID-NOT-RETURN"
+		} else {
+			col.Resume()
+			select {
+			case <-col.Done:
+			case <-time.After(5 * time.Second):
+				verdict = "EVENTS-NOT-CLOSED"
+			}
+			mu.Lock()
+			lp := late
+			mu.Unlock()
+			if lp == nil {
+				verdict += " | LATE-DEVICE-NEVER-RETURNED"
+			} else if c := atomic.LoadInt32(&lp.Closes); c != 1 {
+				verdict += fmt.Sprintf(" | DEVICE-OPENED-DURING-CLOSE-CLOSE-COUNT=%d", c)
+			}
+			if l := scn.Leaks(); l != "" {
+				verdict += " | GOROUTINE-LEAK " + l
+			}
+		}
+		o.Add("serial open-during-close", verdict, "expect", "ok", fmt.Sprintf("serial open-during-close rep=%d", rep))
 	}
 	// ---- network endpoints ----
 	base := 24000 + int(hx.Seed()%100)*20
